@@ -52,3 +52,40 @@ def base_labels(case):
     if len(case.get('sources') or []) > 1:
         labels.append('multi-source')
     return labels
+
+
+def annotate(case):
+    """(re)compute the helper keys '_idx' / '_kind' of sources from the reference topology
+    (they are stripped from stored cases)"""
+    if not isinstance(case, dict) or 'objs' not in case or not case.get('sources'):
+        return case
+    if all('_idx' in s for s in case['sources']):
+        return case
+    from . import gen
+    topo, objs = gen.stand_in_topology(case)
+    for s in case['sources']:
+        p = s['pulse']
+        if isinstance(p, dict):
+            w = [i for i, o in enumerate(objs) if o['tag'] == p['tag']][0]
+            s['_idx'] = topo.per_obj[w][p['k']].idx
+        else:
+            s['_idx'] = int(p)
+        s['_kind'] = topo.pulses[s['_idx']].kind
+    return case
+
+
+def junction_ratio_violation(topo, max_ratio=2.0):
+    """documented rule: adjacent segments differ in length by at most a factor 2 - applied to all segments
+    that meet at a junction; for tapered wires the real segment lengths are only known from the model
+    (reference topology built with them)"""
+    import numpy as np
+    for j in topo.junctions:
+        if len(j) < 2:
+            continue
+        ls = []
+        for (w, e) in j:
+            s = topo.objs[w]['segs']
+            ls.append(float(np.linalg.norm(s[1] - s[0]) if e == 0 else np.linalg.norm(s[-1] - s[-2])))
+        if max(ls) > max_ratio * min(ls) * (1 + 1e-6):
+            return 'segments meeting at a junction differ in length by more than a factor 2 (tapered wire)'
+    return None
